@@ -2,7 +2,7 @@
 # usage: verify_seed.sh <ID>...   confirm a sub-agent's seeded change in its scratch worktree /tmp/wt-<ID>d:
 #   patch alone: builds, the 36 pinned tests pass (1 known failure); demo alone passes; patch + demo: the demo fails
 for id in "$@"; do
-  d=/tmp/wt-${id}d; cd $d || continue
+  d=/tmp/wt-${id}${WT_SUF:-d}; cd $d || continue
   git checkout -q -- . ; git clean -qfd src
   run() { CARGO_NET_OFFLINE=true cargo test --offline -j 8 -p rnacos --lib 2>&1 | grep -E "^test result|^test .* FAILED|error(\[|:)" | head -8 | tr '\n' ';'; }
   git apply OUT/patch.diff || { echo "$id: patch does not apply"; continue; }
